@@ -208,6 +208,7 @@ def case_update(R, res, lines, expect):
         o = gen.make_oracle(R, "random", gen.rand_specs(R, maxdepth=1), d, objective=obj, max_trials=2)
         t = quiet(o.create_trial, "w0")
         per = {}
+        sent = []
         nrep = R.randint(2, 6)
         for _ in range(nrep):
             step = R.choice([0, 1, 1, 2, 3, 5])
@@ -215,6 +216,7 @@ def case_update(R, res, lines, expect):
             R.shuffle(keys)
             rep = {k: float(R.choice(VALS[:8])) for k in keys}
             quiet(o.update_trial, t.trial_id, rep, step=step)
+            sent.append((step, dict(rep)))
             for k, v in rep.items():
                 per.setdefault(k, {}).setdefault(step, []).append(v)
         tr = o.trials[t.trial_id]
@@ -238,6 +240,14 @@ def case_update(R, res, lines, expect):
         if found:
             found[0].also = found[1:]
             raise found[0]
+        # the whole tracker against the model (Ktm/Track.lean): registration order, direction, best value and best step of every metric;
+        # what the name of a metric says (`infer_metric_direction`) is an input of the model
+        from keras_tuner.engine import metrics_tracking as mt_
+        infer = [[n_, None if mt_.infer_metric_direction(n_) is None else mt_.infer_metric_direction(n_) == "min"] for n_ in sorted(per)]
+        oj = (dict(name="multi_objective", minimize=True, parts=[[n_, d_ == "min"] for n_, d_ in objs]) if multi
+              else dict(name=objs[0][0], minimize=objs[0][1] == "min", parts=[]))
+        lines.append(dict(suite="metrics", op="track", objective=oj, infer=infer, reports=[[st_, [[k_, fl(v_)] for k_, v_ in rep_.items()]] for st_, rep_ in sent]))
+        expect.append(";".join(f"{n_}:{h_.direction}:{fl_str(h_.get_best_value())}:{h_.get_best_step()}" for n_, h_ in tr.metrics.metrics.items()))
         quiet(o.end_trial, t)
         tr = o.trials[t.trial_id]
         bests = {k: ref_best(want_dir[k], per[k])[0] for k, _ in objs}
